@@ -68,8 +68,20 @@ ALPHABET = [
 CALLS = (10, 11, 12, 13)
 
 
+def nested_fn_model(r):
+    """a function statement INSIDE a function body (schema-valid; the parser never emits it): executing it binds a GLOBAL function"""
+    inner1 = ['function', 'inner', ['q'], False, False, [LOG('inner v1'), ['return', ['bin', '+', ['var', 'q'], num(1)]]]]
+    inner2 = ['function', 'inner', ['q'], False, False, [LOG('inner v2'), ['return', ['bin', '+', ['var', 'q'], num(100)]]]]
+    outer = ['function', 'outer', ['p'], False, False,
+             [LOG('outer'), r.choice([inner1, inner2]), ['expr', 'z', ['call', 'inner', [['var', 'p']]]], ['return', ['var', 'z']]]]
+    body = [outer] + ([inner1] if r.random() < 0.5 else []) + \
+           [['expr', 'x', ['call', 'outer', [num(1)]]], ['expr', 'y', ['call', 'inner', [num(2)]]], LOG('m'),
+            ['expr', 'y', ['bin', '+', ['var', 'y'], ['call', 'inner', [['var', 'x']]]]], ['return', ['var', 'y']]]
+    return body
+
+
 def random_model(r):
-    labels = ['L1', 'L2', 'L3', 'M']
+    labels = r.choice([['L1', 'L2', 'L3', 'M'], ['L1', 'L2', 'L3', 'M'], ['L1', '', 'L3', 'M']])      # ('' is a schema-valid label name)
     n = r.randint(5, 40)
     body = []
     for _ in range(n):
@@ -198,6 +210,8 @@ def run(tier):
         models.append(('random', random_model(r)))
     for _ in range(n_rand // 3):
         models.append(('redefine', redefine_model(r)))
+    for _ in range(40):
+        models.append(('nested-fn', nested_fn_model(r)))
 
     cases = [{'model': m, 'globals': {'x': interp.vflt(0.0), 'y': ['null'], 'eo': ['obj', 1, []]}, 'max': mx, 'twice': True, 'rerun_same_options': True} for _, m in models]
     impl = core.run_impl('run_script', cases)
